@@ -120,7 +120,8 @@ Definition size_ok (e : json) (s : N) : bool :=
 (* ---------------------------------------------------------------- run values *)
 Inductive item :=
 | IFile (sha1 : string) (size : N)
-| ILit (alts : list string).            (* accepted texts of a literal: Python str() and JSON *)
+| ILit (alts : list string)             (* accepted texts of a literal: Python str() and JSON *)
+| IDir (files : list (string * N)).     (* a directory: sha1 and size of every file below it *)
 
 Inductive value :=
 | VItem (i : item)
@@ -149,11 +150,15 @@ Definition resolves (g : graph) (r : string) : bool := existsb (fun e => id_is e
 Definition refs_ok (g : graph) : bool :=
   forallb (fun e => forallb (fun r => external r || resolves g r) (erefs e)) g.
 
+(* a File entity always records its checksum *)
+Definition has_sha (e : json) : bool :=
+  match get e "sha1" with Some (JStr _) => true | _ => false end.
+
 Definition file_entity_ok (ar : list entry) (e : json) : bool :=
   match ent_id e with
   | None => false
   | Some i =>
-      has_entry ar i &&
+      has_sha e && has_entry ar i &&
       forallb (fun en => negb (String.eqb (en_name en) i) || (sha_ok e (en_digest en) && size_ok e (en_size en))) ar
   end.
 
@@ -178,10 +183,30 @@ Definition lit_text (j : json) : option string :=
   | _ => None
   end.
 
+(* y is reachable from x through at most n hasPart links *)
+Fixpoint reachb (g : graph) (n : nat) (x y : string) : bool :=
+  String.eqb x y |||
+  match n with
+  | O => false
+  | S n' => existsb (fun e => id_is e x &&& existsb (fun z => reachb g n' z y) (prop_refs e "hasPart")) g
+  end.
+
+Definition dir_depth : nat := 16.
+
+(* below x (through hasPart) there is a good File entity for every listed file *)
+Definition dir_files_ok (g : graph) (ar : list entry) (x : string) (files : list (string * N)) : bool :=
+  forallb (fun f => existsb (fun fe => match ent_id fe with
+                                       | Some y => reachb g dir_depth x y && file_ok g ar y (fst f) (snd f)
+                                       | None => false end) g) files.
+
 Definition item_ok (g : graph) (ar : list entry) (j : json) (it : item) : bool :=
   match it with
   | IFile h s => match ref_of j with Some y => file_ok g ar y h s | None => false end
   | ILit alts => match lit_text j with Some t => str_in t alts | None => false end
+  | IDir files => match ref_of j with
+                  | Some y => existsb (fun e => id_is e y && has_type e "Dataset") g && dir_files_ok g ar y files
+                  | None => false
+                  end
   end.
 
 Fixpoint items_ok (g : graph) (ar : list entry) (js : list json) (its : list item) : bool :=
@@ -193,16 +218,6 @@ Fixpoint items_ok (g : graph) (ar : list entry) (js : list json) (its : list ite
 
 Definition as_list (j : json) : list json := match j with JArr l => l | _ => [j] end.
 
-(* y is reachable from x through at most n hasPart links *)
-Fixpoint reachb (g : graph) (n : nat) (x y : string) : bool :=
-  String.eqb x y |||
-  match n with
-  | O => false
-  | S n' => existsb (fun e => id_is e x &&& existsb (fun z => reachb g n' z y) (prop_refs e "hasPart")) g
-  end.
-
-Definition dir_depth : nat := 16.
-
 (* entity e (whose id is x) carries the value *)
 Definition val_ok (g : graph) (ar : list entry) (e : json) (x : string) (v : value) : bool :=
   match v with
@@ -213,11 +228,8 @@ Definition val_ok (g : graph) (ar : list entry) (e : json) (x : string) (v : val
   | VList its =>
       has_type e "PropertyValue" &&
       match get e "value" with Some j => items_ok g ar (as_list j) its | None => false end
-  | VDir files =>
-      has_type e "Dataset" &&
-      forallb (fun f => existsb (fun fe => match ent_id fe with
-                                           | Some y => reachb g dir_depth x y && file_ok g ar y (fst f) (snd f)
-                                           | None => false end) g) files
+  | VItem (IDir files) => has_type e "Dataset" && dir_files_ok g ar x files
+  | VDir files => has_type e "Dataset" && dir_files_ok g ar x files
   end.
 
 Definition name_is (e : json) (n : string) : bool :=
@@ -311,3 +323,11 @@ Definition steps_ok (g : graph) (ar : list entry) (ss : list sv) : bool := foral
 
 Definition crate_ok (g : graph) (ar : list entry) (vs : list rv) (ss : list sv) : bool :=
   all_ids g && nodupb (ids g) && refs_ok g && files_ok g ar && values_ok g ar vs && steps_ok g ar ss.
+
+(* ---------------------------------------------------------------- the metadata document
+   ro-crate-metadata.json as a whole: a JSON-LD document with an @context and an @graph array *)
+Definition doc_ok (m : json) (ar : list entry) (vs : list rv) (ss : list sv) : bool :=
+  match get m "@context", get m "@graph" with
+  | Some _, Some (JArr g) => crate_ok g ar vs ss
+  | _, _ => false
+  end.
